@@ -234,6 +234,19 @@ Theorem C10_completed_tag_survives_crashes :
 Proof. exact completed_tag_survives_src. Qed.
 Print Assumptions C10_completed_tag_survives_crashes.
 
+(* The converse, across any number of crashes: nothing is invented.  Every blob file under
+   blobs/ was pushed (with content that verifies) by some operation of the history, completed or
+   interrupted; every reference name in index.json was set by some Tag of the history. *)
+Theorem C10_nothing_invented :
+  forall (H : list N -> N) (shuffle : nat -> list entry -> list entry),
+    (forall c l e, In e (shuffle c l) <-> In e l) ->
+    forall (h : list hop),
+      let s := runc H shuffle src_inplace src_unlink_first true h init in
+      (forall d, exists_file (sfs s) (FBlob d) = true -> pushed_in H d h) /\
+      (forall l d r, read_index (sfs s) = Some l -> tag_of l r d -> tagged_in d r h).
+Proof. exact nothing_invented_src. Qed.
+Print Assumptions C10_nothing_invented.
+
 Example C10_survives_example :
   let H := fun c : list N => match c with [7] => 1 | [9] => 2 | _ => 0 end in
   let h := [Done (Push 2 [9] true); Done (Tag 2 5); Crashed (Push 1 [7] false) 3;
